@@ -15,8 +15,8 @@
    "Dense and sparse inputs give the same values and the inputs are not modified" is about NumPy /
    SciPy containers, which the model does not have: that clause is checked by the correspondence
    harness (harness/props/c07.py) on every generated case, not by a theorem. *)
-From Coq Require Import List QArith Bool.
-From EV Require Import TPT TPTProofs.
+From Coq Require Import List QArith Bool Lia.
+From EV Require Import TPT TPTProofs TptBase TptGen TPTGen TptGenProofs TPTExist TPTStationary TPTTop.
 Import ListNotations.
 Open Scope Q_scope.
 
@@ -179,3 +179,229 @@ Proof.
   apply all_reachb_sound; vm_compute; reflexivity.
 Qed.
 Print Assumptions c07_example_mfpt.
+
+(* ======================================================================================
+   Round 2 (a): the system-building statements regenerated from the CURRENT enspara/tpt/core.py.
+   translator/tr_tpt.py (fail-closed) rewrites _I_m_Q, committors and both branches of mfpts into
+   Gen/TptGen.v over the array vocabulary of Base/TptBase.v; Model/TPTGen.v adds the input guards.
+   The theorems below say the regenerated definitions ARE the hand-written model the theorems above
+   are about (row and column masking and the unit diagonal of I - Q; T[:, sinks], R[sinks] = 1 then
+   R[sources] = 0; the sum over sink columns; the final pin; c[sinks] = 0; the lag factor;
+   inv(I - T + W) and lagtime * (diag Z - Z) / W with NumPy's broadcasting). *)
+
+(* _I_m_Q as the source builds it = the model's masked I - T, cell by cell *)
+Theorem c07_gen_I_m_Q_is_model : forall (T : nat -> nat -> Q) (A : list nat) (n i j : nat),
+  gen_I_m_Q T A n i j = ImQ T A i j.
+Proof. exact gen_I_m_Q_eq. Qed.
+Print Assumptions c07_gen_I_m_Q_is_model.
+
+Theorem c07_gen_committors_is_model : forall n T src snk,
+  committors_g n T src snk = committors n T src snk.
+Proof. exact gen_committors_eq. Qed.
+Print Assumptions c07_gen_committors_is_model.
+
+Theorem c07_gen_mfpts_sinks_is_model : forall n T snk lag,
+  mfpts_sinks_g n T snk lag = mfpts_sinks n T snk lag.
+Proof. exact gen_mfpts_sinks_eq. Qed.
+Print Assumptions c07_gen_mfpts_sinks_is_model.
+
+Theorem c07_gen_mfpts_all_is_model : forall n T pi lag,
+  mfpts_all_g n T pi lag = mfpts_all n T pi lag.
+Proof. exact gen_mfpts_all_eq. Qed.
+Print Assumptions c07_gen_mfpts_all_is_model.
+
+Theorem c07_gen_mfpts_all_default_is_model : forall n T lag,
+  mfpts_all_default_g n T lag = mfpts_all_default n T lag.
+Proof. exact gen_mfpts_all_default_eq. Qed.
+Print Assumptions c07_gen_mfpts_all_default_is_model.
+
+(* the first-step clauses stated directly on the regenerated definitions *)
+Theorem c07_gen_committor_first_step : forall n T src snk q,
+  committors_g n T src snk = Some q ->
+  NoDup snk -> (forall i, In i src -> ~ In i snk) ->
+  length q = n /\ committor_eqs n (mget T) src snk (vget q).
+Proof. exact gen_committor_first_step. Qed.
+Print Assumptions c07_gen_committor_first_step.
+
+Theorem c07_gen_mfpt_sinks_first_step : forall n T snk lag t,
+  mfpts_sinks_g n T snk lag = Some t ->
+  length t = n /\ mfpt_eqs n (mget T) snk lag (vget t).
+Proof. exact gen_mfpt_sinks_first_step. Qed.
+Print Assumptions c07_gen_mfpt_sinks_first_step.
+
+Theorem c07_gen_mfpt_all_first_step : forall n T pi lag M,
+  mfpts_all_g n T pi lag = Some M ->
+  (forall i, (i < n)%nat -> sumq n (mget T i) == 1) ->
+  stationary_dist n (mget T) (vget pi) ->
+  forall j, (j < n)%nat -> mfpt_eqs n (mget T) [j] lag (fun i => mget M i j).
+Proof. exact gen_mfpt_all_first_step. Qed.
+Print Assumptions c07_gen_mfpt_all_first_step.
+
+(* ======================================================================================
+   Round 2 (b): existence.  The model's Gauss-Jordan (Model/TPT.v: gj / solve) is now verified:
+   whatever it returns solves the system, and it returns a solution whenever the matrix has a
+   trivial kernel; the code's systems have a trivial kernel for a row-stochastic T in which every
+   state reaches an absorbing one.  So "the model returned Some" in the theorems above is no longer
+   a hypothesis one has to check per case: it is a theorem for all inputs inside the quantifier.
+     injective n A := forall v, (forall i < n, sum_j A i j * v j == 0) -> forall j < n, v j == 0 *)
+
+Theorem c07_solver_sound : forall n m A R X, solve n m A R = Some X ->
+  forall i k, (i < n)%nat -> (k < m)%nat -> sumq n (fun j => A i j * mget X j k) == R i k.
+Proof. exact solve_sound. Qed.
+Print Assumptions c07_solver_sound.
+
+Theorem c07_solver_total : forall n m A R, injective n A -> exists X, solve_checked n m A R = Some X.
+Proof. exact solve_checked_total. Qed.
+Print Assumptions c07_solver_total.
+
+(* (I - Q) of the code has a trivial kernel: every state reaches the absorbing set *)
+Theorem c07_I_m_Q_injective : forall n T A, stochastic n T ->
+  (forall i, (i < n)%nat -> reaches n T A i) -> injective n (ImQ T A).
+Proof. exact ImQ_injective. Qed.
+Print Assumptions c07_I_m_Q_injective.
+
+(* hence (I - Q) X = b has a solution for EVERY right-hand side b (any number of columns) *)
+Theorem c07_I_m_Q_system_solvable : forall n m T A (b : nat -> nat -> Q), stochastic n T ->
+  (forall i, (i < n)%nat -> reaches n T A i) ->
+  exists X, forall i k, (i < n)%nat -> (k < m)%nat ->
+    sumq n (fun j => ImQ T A i j * mget X j k) == b i k.
+Proof. exact ImQ_system_solvable. Qed.
+Print Assumptions c07_I_m_Q_system_solvable.
+
+(* committors is total on the property's domain (neither NoDup nor disjointness is needed for this) *)
+Theorem c07_committors_exist : forall n T src snk,
+  wfb n T = true -> idxb n src = true -> idxb n snk = true -> stochastic n (mget T) ->
+  (forall i, (i < n)%nat -> reaches n (mget T) (src ++ snk) i) ->
+  exists q, committors n T src snk = Some q.
+Proof. exact committors_total. Qed.
+Print Assumptions c07_committors_exist.
+
+Theorem c07_mfpts_sinks_exist : forall n T snk lag,
+  wfb n T = true -> idxb n snk = true -> stochastic n (mget T) ->
+  (forall i, (i < n)%nat -> reaches n (mget T) snk i) ->
+  exists t, mfpts_sinks n T snk lag = Some t.
+Proof. exact mfpts_sinks_total. Qed.
+Print Assumptions c07_mfpts_sinks_exist.
+
+(* I - T + W is invertible when W's rows are a stationary distribution and some state is reached by all
+   (no aperiodicity needed): the all-pairs table exists whenever the populations are non-zero *)
+Theorem c07_fundamental_injective : forall n T pi j0, stochastic n T -> stationary_dist n T pi ->
+  (j0 < n)%nat -> (forall i, (i < n)%nat -> reaches n T [j0] i) -> injective n (fund T pi).
+Proof. exact fund_injective. Qed.
+Print Assumptions c07_fundamental_injective.
+
+Theorem c07_mfpts_all_exist : forall n T pi lag j0,
+  wfb n T = true -> length pi = n -> (forall j, (j < n)%nat -> ~ vget pi j == 0) ->
+  stochastic n (mget T) -> stationary_dist n (mget T) (vget pi) -> (j0 < n)%nat ->
+  (forall i, (i < n)%nat -> reaches n (mget T) [j0] i) ->
+  exists M, mfpts_all n T pi lag = Some M.
+Proof. exact mfpts_all_total. Qed.
+Print Assumptions c07_mfpts_all_exist.
+
+(* the same on the regenerated definitions *)
+Theorem c07_gen_committors_exist : forall n T src snk,
+  wfb n T = true -> idxb n src = true -> idxb n snk = true -> stochastic n (mget T) ->
+  (forall i, (i < n)%nat -> reaches n (mget T) (src ++ snk) i) ->
+  exists q, committors_g n T src snk = Some q.
+Proof. exact gen_committors_total. Qed.
+Print Assumptions c07_gen_committors_exist.
+
+Theorem c07_gen_mfpts_sinks_exist : forall n T snk lag,
+  wfb n T = true -> idxb n snk = true -> stochastic n (mget T) ->
+  (forall i, (i < n)%nat -> reaches n (mget T) snk i) ->
+  exists t, mfpts_sinks_g n T snk lag = Some t.
+Proof. exact gen_mfpts_sinks_total. Qed.
+Print Assumptions c07_gen_mfpts_sinks_exist.
+
+(* Non-vacuity for round 2: the regenerated definitions compute on the example chain, and the example
+   meets the hypotheses of the existence theorems. *)
+Example c07_example_gen :
+  committors_g 4 ex_T [0%nat] [2%nat; 3%nat] = Some [0; 1#2; 1; 1] /\
+  option_map (fun t => ql_eq t [12; 0; 14; 18]) (mfpts_sinks_g 4 ex_T [1%nat] (5#2)) = Some true /\
+  option_map (fun M => qll_eq M [[0; 12; 10; 30]; [15; 0; 10; 30]; [20; 14; 0; 20]; [15; 18; 10; 0]])
+             (mfpts_all_default_g 4 ex_T (5#2)) = Some true /\
+  wfb 4 ex_T = true /\ idxb 4 [0%nat] = true /\ idxb 4 [2%nat; 3%nat] = true.
+Proof. repeat split; vm_compute; reflexivity. Qed.
+Print Assumptions c07_example_gen.
+
+(* ======================================================================================
+   Round 2 (c): the populations=None path and the property end to end.
+     irreducible n T := forall i j < n, reaches n T [j] i     (periodic chains included) *)
+
+(* a square system with trivial kernel has a transpose with trivial kernel (used to pass from the
+   harmonic functions of T to its stationary vectors) *)
+Theorem c07_transpose_injective : forall n M, injective n M -> injective n (fun i j => M j i).
+Proof. exact transpose_injective. Qed.
+Print Assumptions c07_transpose_injective.
+
+(* the model's stand-in for eq_probs returns a vector for every irreducible stochastic matrix *)
+Theorem c07_stationary_exists : forall n T, (0 < n)%nat -> wfb n T = true -> stochastic n (mget T) ->
+  irreducible n (mget T) -> exists pi, stationary n T = Some pi.
+Proof. exact stationary_total. Qed.
+Print Assumptions c07_stationary_exists.
+
+(* the stationary distribution is unique and strictly positive (so W has no zero to divide by) *)
+Theorem c07_stationary_unique : forall n T p p', (0 < n)%nat -> stochastic n T -> irreducible n T ->
+  stationary_dist n T p -> stationary_dist n T p' -> forall j, (j < n)%nat -> p j == p' j.
+Proof. exact stationary_unique. Qed.
+Print Assumptions c07_stationary_unique.
+
+Theorem c07_stationary_positive : forall n T pi, (0 < n)%nat -> stochastic n T -> irreducible n T ->
+  stationary_dist n T pi -> forall j, (j < n)%nat -> 0 < pi j.
+Proof. exact stationary_positive. Qed.
+Print Assumptions c07_stationary_positive.
+
+Theorem c07_mfpts_all_default_exist : forall n T lag, (0 < n)%nat -> wfb n T = true ->
+  stochastic n (mget T) -> irreducible n (mget T) -> exists M, mfpts_all_default n T lag = Some M.
+Proof. exact mfpts_all_default_total. Qed.
+Print Assumptions c07_mfpts_all_default_exist.
+
+(* THE PROPERTY, committor clause, end to end on the regenerated definitions: for an ergodic matrix and
+   disjoint source / sink sets with valid indices (at least one of them non-empty), committors returns q,
+   q is 0 on sources, 1 on sinks, the T-weighted average of its neighbours elsewhere, and lies in [0, 1]. *)
+Theorem c07_ergodic_committors : forall n T src snk a,
+  wfb n T = true -> idxb n src = true -> idxb n snk = true ->
+  stochastic n (mget T) -> irreducible n (mget T) ->
+  In a (src ++ snk) -> NoDup snk -> (forall i, In i src -> ~ In i snk) ->
+  exists q, committors_g n T src snk = Some q /\ length q = n /\
+            committor_eqs n (mget T) src snk (vget q) /\
+            forall i, (i < n)%nat -> 0 <= vget q i /\ vget q i <= 1.
+Proof. exact ergodic_committors. Qed.
+Print Assumptions c07_ergodic_committors.
+
+(* mean first-passage times to a non-empty sink set, end to end *)
+Theorem c07_ergodic_mfpts_sinks : forall n T snk lag a,
+  wfb n T = true -> idxb n snk = true -> stochastic n (mget T) -> irreducible n (mget T) -> In a snk ->
+  exists t, mfpts_sinks_g n T snk lag = Some t /\ length t = n /\ mfpt_eqs n (mget T) snk lag (vget t).
+Proof. exact ergodic_mfpts_sinks. Qed.
+Print Assumptions c07_ergodic_mfpts_sinks.
+
+(* the all-pairs table with populations=None, end to end: it exists, every column satisfies the first-step
+   equations of its single sink, and equals what the single-sink computation returns (which exists) *)
+Theorem c07_ergodic_mfpts_all : forall n T lag,
+  (0 < n)%nat -> wfb n T = true -> stochastic n (mget T) -> irreducible n (mget T) ->
+  exists M, mfpts_all_default_g n T lag = Some M /\
+    (forall j, (j < n)%nat -> mfpt_eqs n (mget T) [j] lag (fun i => mget M i j)) /\
+    (forall j, (j < n)%nat -> exists t, mfpts_sinks_g n T [j] lag = Some t /\
+                                        forall i, (i < n)%nat -> mget M i j == vget t i).
+Proof. exact ergodic_mfpts_all. Qed.
+Print Assumptions c07_ergodic_mfpts_all.
+
+(* Non-vacuity: a PERIODIC irreducible chain (the 3-cycle with a two-state class: period 3) meets the
+   hypotheses of the end-to-end theorems, and the regenerated definitions compute its table. *)
+Definition ex_P : mat := [[0; 0; 1; 0]; [0; 0; 1; 0]; [0; 0; 0; 1]; [1#2; 1#2; 0; 0]].
+Example c07_example_periodic :
+  wfb 4 ex_P = true /\ stochastic 4 (mget ex_P) /\ irreducible 4 (mget ex_P) /\
+  stationary 4 ex_P = Some [1#6; 1#6; 1#3; 1#3] /\
+  option_map (fun M => qll_eq M [[0; 6; 1; 2]; [6; 0; 1; 2]; [5; 5; 0; 1]; [4; 4; 2; 0]])
+             (mfpts_all_default_g 4 ex_P 1) = Some true.
+Proof.
+  split; [vm_compute; reflexivity|].
+  split; [apply stochasticb_sound; vm_compute; reflexivity|].
+  split.
+  - intros i j Hi Hj.
+    assert (Hall : forallb (fun j0 => all_reachb 4 (mget ex_P) [j0]) (seq 0 4) = true) by (vm_compute; reflexivity).
+    rewrite forallb_forall in Hall. apply all_reachb_sound; [|exact Hi]. apply Hall. apply in_seq. lia.
+  - split; vm_compute; reflexivity.
+Qed.
+Print Assumptions c07_example_periodic.
